@@ -480,7 +480,7 @@ def exotic(doc, r, p=0.4):
 
     def conv(v, depth):
         if isinstance(v, dict):
-            d = {(StrSub(k) if r.random() < p / 3 else k): conv(x, depth + 1) for k, x in v.items()}
+            d = {(r.choice([StrSub, MarkupStr])(k) if r.random() < p / 3 else k): conv(x, depth + 1) for k, x in v.items()}
             if r.random() < p:
                 kind = r.choice(["ordered", "user", "proxy", "dict-subclass"])
                 if kind == "ordered":
@@ -508,7 +508,7 @@ def exotic(doc, r, p=0.4):
             if isinstance(v, bool) or v is None:
                 return v
             if isinstance(v, str):
-                return StrSub(v)
+                return r.choice([StrSub, MarkupStr])(v)
             if isinstance(v, int):
                 return IntSub(v)
             if isinstance(v, float):
@@ -522,6 +522,40 @@ import collections.abc as _abc
 
 class StrSub(str):
     __slots__ = ()
+
+
+class MarkupStr(str):
+    """A str subclass in the style of markupsafe.Markup: the operators and methods that build new text return the
+    subclass and HTML-escape the *other* operand.  Code that assembles text around such a value with +, %, join,
+    format, translate or replace gets something else than it would for a plain str."""
+    __slots__ = ()
+
+    @staticmethod
+    def _esc(x):
+        if isinstance(x, MarkupStr):
+            return str.__str__(x)
+        return str(x).replace("&", "&amp;").replace("<", "&lt;").replace(">", "&gt;").replace("'", "&#39;").replace('"', "&#34;")
+
+    def __add__(self, other):
+        return MarkupStr(str.__str__(self) + self._esc(other)) if isinstance(other, str) else NotImplemented
+
+    def __radd__(self, other):
+        return MarkupStr(self._esc(other) + str.__str__(self)) if isinstance(other, str) else NotImplemented
+
+    def __mod__(self, arg):
+        return MarkupStr(str.__mod__(self, tuple(self._esc(a) for a in arg) if isinstance(arg, tuple) else self._esc(arg)))
+
+    def join(self, seq):
+        return MarkupStr(str.join(self, [self._esc(x) for x in seq]))
+
+    def format(self, *a, **kw):
+        return MarkupStr(str.format(self, *[self._esc(x) for x in a], **{k: self._esc(v) for k, v in kw.items()}))
+
+    def translate(self, table):
+        return MarkupStr(str.translate(self, table))
+
+    def replace(self, *a):
+        return MarkupStr(str.replace(self, *a))
 
 
 class IntSub(int):
